@@ -51,7 +51,8 @@ CLAIMS['C12'] = dict(
        'the installed signatures and exists; the basis recurrence, coefficient contractions, DCT axis, even-coefficient '
        'slices, dense siblings and the least-squares fit are dimension-consistent for symbolic sizes n_k >= 2; func_int, '
        'func_gets and func_int_general return well-formed tensors with the expected mode sizes; the outside-the-box test '
-       'has both sides and keeps the fill value; the documented rejections (asymmetric box, unknown kind) are in place.',
+       'has both sides and keeps the fill value; the documented rejections (asymmetric box, unknown kind) are in place; '
+       'func_basis stores the linear term for every basis size >= 2 (abstract execution at m = 2, 3, 5).',
   note='Not decided (numerical core of the property): exactness on polynomials, differentiation matrices, fit accuracy, '
        'agreement of values between TT and dense routines.')
 CLAIMS['C14'] = dict(
@@ -60,7 +61,8 @@ CLAIMS['C14'] = dict(
        '[m, d] of the right kind and every store fits its slot; the p= vector of every choice() is non-negative, divided '
        'by its own sum and as long as the population; the marginal / conditional contractions are dimension consistent; '
        'sample_square orthogonalises to core 0, reads the first marginal from core 0 and sweeps right over '
-       'right-orthogonal cores; the LHS remainder is drawn without replacement and columns have length m.',
+       'right-orthogonal cores; the pivot core whose entries are squared for the first marginal carries a power-of-two '
+       'normalisation (exponent-ledger facet); the LHS remainder is drawn without replacement and columns have length m.',
   note='Not decided: that the conditionals multiply to the tensor entry (the distribution itself), uniqueness in '
        'distribution, goodness of fit.')
 CLAIMS['C20'] = dict(
@@ -72,12 +74,14 @@ CLAIMS['C20'] = dict(
   note='Not decided: recovery of the sampled tensor (numerical, generic), the block layout values.')
 
 CLAIMS['C01'] = dict(
-  technique='symbolic shape typing by abstract interpretation (einsum letter unification, block concatenation, Kronecker reshape) + scalar-degree facet',
+  technique='symbolic shape typing by abstract interpretation (einsum letter unification, block concatenation, Kronecker reshape) + scalar-degree and term-count facets',
   text='Decides the structural part only, for d = 2,3 (thorough: 4) and symbolic unequal ranks / mode sizes: every contraction, '
        'einsum, concatenation (axis and zero-block sizes of add), Kronecker reshape, index and store of the evaluation and '
        'algebra routines is dimension consistent for tensor and number operands; add/sub/mul/outer/add_many/outer_many/copy '
        'return well-formed tensors with ranks a+b / a*b / a and the input mode sizes; full returns exactly the d mode axes; '
-       'ranks/shape/size report the core dimensions; a number operand enters the cores with total degree 1.',
+       'ranks/shape/size report the core dimensions; a number operand enters the cores with total degree 1; mean and the '
+       'natural-norm interface vectors (both directions) divide every sum over a mode index by the size of that very mode, sum '
+       'adds all prod(n) terms undivided (term-count facet).',
   note='Not decided (the numerical core): values, weights of mean, block contents, rounding, the bit-for-bit integer claim; '
        'getter (numba). Loops over cores are unrolled for d <= 4: first/middle/last core behaviour is covered, not an induction on d.')
 CLAIMS['C07'] = dict(
@@ -95,7 +99,7 @@ CLAIMS['C11'] = dict(
        'with the expected mode sizes for unconstrained symbolic sizes (covers rank 1, d = 2, mode size 1, over-ranked cores); '
        'the truncated factorisations keep the rank floor max(1,.); no division / reciprocal / log with a data-derived, unguarded '
        'denominator flows into a returned tensor or into norm/sum/mean/mul_scalar/erank/accuracy; the -1 sentinel branch of '
-       'accuracy dominates the quotient.',
+       'accuracy dominates the quotient; no square root of a possibly negative scalar product is returned unguarded.',
   note='Not decided: overflow/underflow, LAPACK finiteness, NaN from user data. Accepted denominators are an explicit table '
        '(dense convenience path of accuracy). Grid sizes n_k >= 2 assumed for the Chebyshev routines.')
 
@@ -104,7 +108,7 @@ CLAIMS['C02'] = dict(
   text='Decides the structural part only: in the right-to-left sweep of truncate the factor kept in each finished core has '
        'orthonormal rows and the weights travel left, in eigen and SVD mode (the rule that found the SVD-mode defect); the three '
        'm-vs-n selectors of matrix_svd agree on every ordering; pivot, norm core and sweep start coincide; tail energies (sigma^2) '
-       'are compared with e^2 in one unit with e rescaled by the norm; rank = max(1, min(cap, len - dropped)) on a bounded grid '
+       'are compared with e^2 in one unit and, in the stabilised mode, at one power-of-two scale, with e rescaled by the norm; rank = max(1, min(cap, len - dropped)) on a bounded grid '
        'and the droppable tail is the longest with energy <= e^2; e and r reach every factorisation call and the final rounding '
        'of add_many; results are well formed with the input mode sizes.',
   note='Not decided: the inequality ||Y-Z|| <= e||Y||, quasi-optimal ranks as values, behaviour exactly at a threshold, rounding. '
@@ -114,7 +118,8 @@ CLAIMS['C03'] = dict(
   text='Decides the structural part only: every finished core of TT-SVD has orthonormal columns and the weights travel with the '
        'remainder (the rule that found the scale-dependent defect); matrix_skeleton returns (weighted, rows)/(cols, weighted)/'
        '(half, half) for give_to l/r/m and matrix_svd an orthonormal-row right factor on both Gram sides; selectors agree; '
-       'threshold units; rank formula; unfolding reshapes of svd / svd_matrix / full_matrix consistent; results well formed.',
+       'threshold units; with rel=True the singular values are divided by the largest one; rank formula; unfolding reshapes of '
+       'svd / svd_matrix / full_matrix consistent; results well formed.',
   note='Not decided: the error bound numerically, exact-rank reproduction, best-approximation property of the factor product. '
        'The interleaving permutation tables are checked in the thorough tier only (bounded q).')
 CLAIMS['C04'] = dict(
@@ -155,9 +160,10 @@ CLAIMS['C08'] = dict(
   note='Not decided (the numerical core): A = B A[I], max|B| <= e, row-norm bound, distinctness as a value fact. The column '
        'growth of maxvol_rect is widened (shape of B only partly typed).')
 CLAIMS['C13'] = dict(
-  technique='symbolic 2x2 transfer-pattern check of the core slot stores + shape typing + build-order / object-state (alias) rules',
+  technique='symbolic 2x2 transfer-pattern check of the core slot stores + identity-pattern facet + shape typing + build-order / object-state (alias) rules',
   text='Decides the structural part only: with noise 0 the slot stores of ANOVA.cores_1 propagate [1, S] to [1, S + f] and close to '
-       'f0 + sum f for every d; order-1 results have ranks equal to r; the order-2 cap is forwarded; pair-term tensors are '
+       'f0 + sum f for every d; the chaining cores of the pair terms are identities in the two bond axes, constant along the mode '
+       'axis; order-1 results have ranks equal to r; the order-2 cap is forwarded; pair-term tensors are '
        'dimension consistent; build_0 < build_1 < build_2 and f1 = conditional mean - f0, f0 = mean; cores/calc/sample never '
        'write arrays owned by the object; functional variant: coefficient offset agreement; noise from self.rand.',
   note='Not decided: values of conditional means, truncation error for order 2, ridge-fit accuracy.')
@@ -173,7 +179,8 @@ CLAIMS['C17'] = dict(
   technique='layout facet with tagged binary modes + pairing rule for ravel/unravel + shape typing at mode sizes 2,4,8 + abstract rejections',
   text='Decides the structural part only: core_qtt_to_tt merges binary modes first-core-fastest (little-endian), the index maps use '
        'ravel/unravel with equal dims, order="F" and equal column blocks (the same convention); core_tt_to_qtt at mode sizes '
-       '2, 4, 8 returns q cores of mode size 2 whose outer bonds are exactly the original ranks and whose inner bonds chain; '
+       '2, 4, 8 returns q cores of mode size 2 whose outer bonds are exactly the original ranks and whose inner bonds chain, the '
+       'inner cores being orthonormal-row right factors of the successive truncations; '
        'tt_to_qtt / qtt_to_tt results well formed; e, r forwarded; non-powers of two rejected, powers accepted.',
   note='Not decided: accuracy of the round trip; digit order produced by the halving loop as values.')
 CLAIMS['C18'] = dict(
@@ -182,8 +189,9 @@ CLAIMS['C18'] = dict(
        'and Chebyshev grids (arccos(cos u) = u on [0, pi]); index 0 / n-1 map to the documented box ends; scaling maps a, b to '
        'the canonical ends; after scaling and after rounding both clamps follow with matching bounds; unknown kinds, inconsistent '
        'option lengths and scalar options without d are rejected; option broadcasting, batches, grid_flat and cdf_getter are '
-       'dimension consistent with the right result shapes.',
-  note='Not decided: floating-point round trip at cell boundaries, nearest-node ties, enumeration order of grid_flat as values.')
+       'dimension consistent with the right result shapes; the rows of grid_flat enumerate the multi-indices with the first '
+       'index fastest (layout facet).',
+  note='Not decided: floating-point round trip at cell boundaries, nearest-node ties.')
 CLAIMS['C19'] = dict(
   technique='scalar-degree facet + symbolic 2x2 transfer pattern + shape typing + constant-folded index helpers',
   text='Decides the structural part only: const / delta carry v with total degree 1 on both branches of the tiny-value test; '
